@@ -232,7 +232,8 @@ impl Subject for C01 {
 }
 
 pub const THRESHOLDS: [f64; 6] = [0.0, 0.5, 1.0, 2.0, 2.5, 3.0];
-pub const INTERVALS: [u32; 12] = [0, 1000, 500, 2000, 2500, 5000, 10000, 300, 700, 1500, 3000, 20000];
+// 1200 and 1700: above one bucket of the global ring but not a multiple of it (a private single-bucket window)
+pub const INTERVALS: [u32; 14] = [0, 1000, 500, 2000, 2500, 5000, 10000, 300, 700, 1500, 3000, 20000, 1200, 1700];
 
 pub fn configs(thorough: bool) -> Vec<Cfg> {
     let mut v = vec![];
